@@ -8,7 +8,7 @@ use refmodel::{RNum, RVal};
 use serde_json::json;
 
 /// split a JSON text into tokens (strings kept whole); None if it is not tokenisable
-fn tokens(s: &str) -> Option<Vec<&str>> {
+pub(crate) fn tokens(s: &str) -> Option<Vec<&str>> {
     let b = s.as_bytes();
     let mut out = vec![];
     let mut i = 0;
@@ -54,7 +54,7 @@ fn tokens(s: &str) -> Option<Vec<&str>> {
 
 /// the pretty layout the property describes, built from the compact tokens: two-space
 /// indentation, one member per line, ": " after keys; empty containers written "[]" / "{}"
-fn pretty_from_tokens(t: &[&str]) -> String {
+pub(crate) fn pretty_from_tokens(t: &[&str]) -> String {
     let mut out = String::new();
     let mut depth = 0usize;
     let nl = |out: &mut String, d: usize| {
@@ -97,7 +97,7 @@ fn pretty_from_tokens(t: &[&str]) -> String {
 /// line, with a line break or with a blank line is left open by the property, but if its closing
 /// bracket stands on a line of its own, that line is indented like every other line (two spaces per
 /// level of the container); anything else is left in place and fails the layout comparison
-fn collapse_empty(s: &str) -> String {
+pub(crate) fn collapse_empty(s: &str) -> String {
     let mut out = String::with_capacity(s.len());
     let b: Vec<char> = s.chars().collect();
     let mut i = 0;
